@@ -806,11 +806,13 @@ impl Transformer {
         if has_svg_element && self.context.config.add_auto_styles {
             self.write_auto_styles(&mut events, writer)?;
         }
+        // what follows the root's own tag belongs inside it (e.g. the text generated
+        // for a `text` attribute of an empty root): the end tag comes last
+        events.write_to(writer)?;
         if empty_root {
             OutputList::from([OutputEvent::End("svg".to_owned())].as_slice()).write_to(writer)?;
         }
-
-        events.write_to(writer)
+        Ok(())
     }
 }
 
